@@ -130,7 +130,7 @@ func (i *interpreter) global(g *ssa.Global) *value {
 	if r, ok := i.globals[g]; ok {
 		return r
 	}
-	if i.inInit == 0 && g.Pkg != nil && !i.initAllow[g.Pkg.Pkg.Path()] && i.needsInit(g) {
+	if g.Pkg != nil && !i.initAllow[g.Pkg.Pkg.Path()] && i.needsInit(g) {
 		panic(engineFault{"access to global " + g.String() + " whose package initialiser is not executed (add the package to the init whitelist)"})
 	}
 	cell := zero(deref(g.Type()))
@@ -656,6 +656,9 @@ func runInitFrame(fr *frame) {
 			if st, ok := instr.(*ssa.Store); ok {
 				// storing a poisoned value poisons the cell
 				if p, isP := fr.get(st.Val).(poison); isP {
+					if g, isG := st.Addr.(*ssa.Global); isG {
+						p = poison{"global " + g.String() + ": " + p.why}
+					}
 					*(fr.get(st.Addr).(*value)) = p
 					continue
 				}
